@@ -440,6 +440,14 @@ def handleC07 (op : String) (args : List Sexp) : Option Ans :=
   | "oracle-remap-shape", [c, _, _, t] => do
     let c ← dClass c; let r ← dTable t
     pure (oracleShape r c)
+  | "oracle-code-refs", [c, _, _, t] => do
+    let c ← dClass c; let r ← dTable t
+    pure (verdict ((remapClass r c).map refsClass == omapM (codeApply r c.name) (refsClass (strip c))) "refs")
+  | "oracle-code-shape", [c, _, _, t] => do
+    let c ← dClass c; let r ← dTable t
+    pure (match remapClass r c with
+      | none => outOfDomain
+      | some c' => verdict (sameSexp (eClass (eraseClass c')) (eClass (eraseClass (strip c)))) "shape")
   | "oracle-full-refs", [c, _, _, t] => do
     let c ← dClass c; let r ← dTable t
     pure (oracleFullRefs r c)
